@@ -97,6 +97,9 @@ struct WorldSrc {
 
 fn corpus(mode: &str) -> Vec<WorldSrc> {
     let mut out = vec![];
+    if mode == "resources" {
+        out.push(resource_corpus());
+    }
     for (name, wit) in witgen::boundary_corpus() {
         let keep = match (mode, name) {
             ("values", "handles") => false,
@@ -112,6 +115,44 @@ fn corpus(mode: &str) -> Vec<WorldSrc> {
         out.push(WorldSrc { wit, origin: format!("corpus:{name}"), tags: vec![format!("corpus-{name}")] });
     }
     out
+}
+
+/// Hand-written resource world: every handle position the property names, once
+/// for a host-defined (imported) and once for a guest-defined (exported) resource.
+fn resource_corpus() -> WorldSrc {
+    let body = r#"
+  resource thing {
+    constructor(a: u32);
+    get: func() -> u32;
+    same: func(other: borrow<thing>) -> bool;
+    make: static func(n: u32) -> thing;
+    merge: static func(a: thing, b: thing) -> thing;
+    clone-into: func(l: list<thing>) -> list<thing>;
+  }
+  resource fallible {
+    constructor(ok: bool) -> result<fallible, string>;
+    id: func() -> u32;
+  }
+  record holder { t: thing, n: u8 }
+  record lender { t: borrow<thing>, n: u8 }
+  variant choice { none, one(thing), name(string), two(tuple<thing, thing>) }
+  take-own: func(t: thing);
+  give-own: func() -> thing;
+  pass-own: func(t: thing) -> thing;
+  borrow-it: func(t: borrow<thing>) -> u32;
+  in-record: func(h: holder) -> holder;
+  lend-record: func(h: lender, l: list<lender>) -> u8;
+  in-variant: func(c: choice) -> choice;
+  in-option: func(o: option<thing>) -> option<thing>;
+  in-result: func(r: result<thing, string>) -> result<thing, string>;
+  in-list: func(l: list<thing>) -> list<thing>;
+  in-tuple: func(t: tuple<thing, u32, thing>) -> tuple<thing, string>;
+  borrow-list: func(l: list<borrow<thing>>, o: option<borrow<thing>>) -> u32;
+  mixed: func(a: thing, b: borrow<thing>, c: list<thing>, d: fallible) -> result<list<thing>, string>;
+  nested: func(x: list<option<result<thing, fallible>>>) -> list<option<result<fallible, thing>>>;
+"#;
+    let wit = format!("package verif:res;\n\ninterface shapes-imp {{{body}}}\n\ninterface shapes-exp {{{body}}}\n\nworld res-corpus {{\n  import shapes-imp;\n  export shapes-exp;\n}}\n");
+    WorldSrc { wit, origin: "corpus:resources".into(), tags: vec!["corpus-resources".into(), "resource".into()] }
 }
 
 fn witgen_cfg(mode: &str, rng: &mut Rng) -> witgen::Cfg {
@@ -134,6 +175,12 @@ fn witgen_cfg(mode: &str, rng: &mut Rng) -> witgen::Cfg {
     c.funcs = 6;
     c.types = 6;
     c.max_params = 5;
+    if mode == "resources" {
+        // one direction per interface: which copy of a resource a handle type means is then unambiguous
+        c.same_iface_both = false;
+        c.max_params = 3;
+        c.fixed_lists = false;
+    }
     c
 }
 
@@ -328,13 +375,22 @@ fn main() {
             let src = if i < ncorp {
                 corp.pop().unwrap()
             } else {
-                let cfg = witgen_cfg(&mode, &mut rng);
-                let mut wrng = rng.fork(i as u64);
-                match witgen::generate_valid(&mut wrng, &cfg) {
-                    Some((w, _, _, d)) => {
+                let mut found = None;
+                for attempt in 0..20u64 {
+                    let cfg = witgen_cfg(&mode, &mut rng);
+                    let mut wrng = rng.fork(i as u64 * 64 + attempt);
+                    if let Some((w, _, _, d)) = witgen::generate_valid(&mut wrng, &cfg) {
                         discarded += d;
-                        WorldSrc { wit: w.wit, origin: "witgen".into(), tags: w.tags.into_iter().collect() }
+                        // resource histories need a resource with some way to get hold of one
+                        if mode == "resources" && !(w.tags.contains("resource") && (w.wit.contains("constructor(") || w.tags.contains("own"))) {
+                            continue;
+                        }
+                        found = Some(WorldSrc { wit: w.wit, origin: "witgen".into(), tags: w.tags.into_iter().collect() });
+                        break;
                     }
+                }
+                match found {
+                    Some(s) => s,
                     None => {
                         entries.push(json!({"name": name, "status": "witgen-failed"}));
                         continue;
